@@ -317,6 +317,8 @@ pub fn arg_pool() -> Vec<&'static str> {
         "?q", "#f", "a=b&c=d", "\u{0}", "\u{7f}", "\u{80}", "a/../b", "a/./b", "/.//x", "a b ", "%00", "&", "=", "+", ";", "~",
         // a '/' behind tab / LF (class of the repaired finding F-C06-6)
         "\t/x", "\n//x", "\t/ y",
+        // arguments that equal the DECODED form of a stored component with an escape
+        "Alice", "B c",
         // a dot segment behind tab / LF / CR (class of the repaired finding F-C06-7: extend() skipped only the literal "." / "..")
         ".\t.", "\n.", ".\r",
     ]
@@ -465,6 +467,7 @@ pub fn start_pool() -> Vec<Url> {
         "file://h/",
         "file:///c:/",
         "a:b c ",
+        "http://%41lice:%42%20c@h/p",
         "a:b  #f",
         "a:b  ?q#f",
         "data:text/plain,two words   #old",
